@@ -11,13 +11,16 @@ import gen_kern as G
 
 ID = "C09"
 LEAN_MODULES = ["CatiiProps.C09"]
+USES_TRANSLATOR = True   # Gen/KernelsGen.lean is rewritten from the current set_operations.pyx (tools/translate_pyx.py)
 RULE = ("same exhaustive spaces as C08 (every empty/non-empty combination and exhaustion order up to 6/8 elements; the k-way union over all lists of <=3 subsets of [0, 3, 2^32-1]) plus "
         "operands sharing 65537 .. 70000 row ids (twin only); random pairs over eleven overlap patterns (incl. lengths 1-4 against 65-5000; contiguous, embedded, strided and backwards views of buffers whose other words belong to neither operand, a stray word in the result being a read outside the inputs), unsorted and duplicate-carrying random arrays; each case runs the bounds-checked twin (IndexError per "
         "out-of-range source-level access) and the model (Err per checked access); non-trivial = at least one operand "
         "non-empty; distinct by input")
 ASSUMPTIONS = ["Cython lowers each source-level index expression to one access of that element; gcc preserves it",
                "the twin differs from the shipped kernel only in @cython.boundscheck(True)"]
-TRUSTED = ["tools/buildext.py variants `checked` and `asan`"]
+TRUSTED = ["tools/buildext.py variants `checked` and `asan`",
+           "tools/translate_pyx.py (Cython subset -> Lean: every a[i] a checked read, every v[i] = e a checked write, integer "
+           "subtraction checked against going below zero; loops as recursive functions)"]
 
 FN2 = {"inter": "set_intersect_merge_np", "union": "set_union_merge_np", "diff": "set_difference_merge_np"}
 
@@ -184,6 +187,23 @@ def run(ctx):
             same = False
         if not same:
             ctx.corr_fail("twin %s vs model %s" % (str(got)[:200], str(m)[:200]), case)
+    # the kernels REGENERATED from the current .pyx: an Err of a checked access <=> IndexError of the twin
+    gen = [(r, c, g) for r, (c, g) in zip(reqs, pend) if r["fn"] in FN2]
+    try:
+        gans = ctx.model.run([{"fn": r["fn"], "l": r["l"], "r": r["r"]} for r, _c, _g in gen], driver="Driver/KernGen.lean")
+    except core.ModelBroken as e:
+        ctx.corr_fail("the kernel model regenerated from set_operations.pyx does not build/run: %s" % str(e)[-400:], {"translator": True})
+        return
+    ctx.hit("generated_model_requests", len(gen))
+    for (r, case, got), m in zip(gen, gans):
+        if got[0] == "oob":
+            same = m.get("err") in ("oobRead", "oobWrite", "value")
+        elif got[0] == "ok":
+            same = m.get("ok") == got[1]
+        else:
+            same = False
+        if not same:
+            ctx.corr_fail("twin %s vs the model regenerated from the .pyx %s" % (str(got)[:200], str(m)[:200]), case)
 
 
 ASAN_SCRIPT = r'''
